@@ -30,8 +30,8 @@ func runC06(r *core.Run, tier string) {
 	if tier == "thorough" {
 		nProg, nLay = 800, 40
 	}
-	r.Rule("a case is one (abstract program, layout) pair: the program is printed with independently drawn layout decisions at every block, statement, arm and operator (indent unit 1..9 spaces or a tab, blank and white-space-only lines, own-line // and /* */ comments at any column incl. multi-line block comments, trailing comments and white space, if on one line or several, let right-hand side and arm body on the same or the next line, line break before every |>, multi-line record definitions, arms indented or not) and transpiled by the rebuilt fc with the root-boundary invariants (hook H2) asserted; the gen file must be byte-identical to the one of the canonical layout; the converse (a dedented line ends its block) is decided by executing paired programs that differ only in the indentation of one statement; non-trivial = the layout differs from the canonical text; distinct by (program, layout text) hash")
-	r.Assume("layouts never put a comment before a token on its line and always end the file with a newline (those change columns / belong to C16)", "the canonical layout's meaning is checked by C01")
+	r.Rule("a case is one (abstract program, layout) pair: the program is printed with independently drawn layout decisions at every block, statement, arm and operator (indent unit 1..9 spaces or a tab, blank and white-space-only lines, own-line // and /* */ comments at any column incl. multi-line block comments, trailing comments and white space, if on one line or several, let right-hand side and arm body on the same or the next line, line break before every |>, multi-line record definitions, arms indented or not, and nine ways of ending the file: with or without a final newline, after a comment-only or spaces-only last line, extra blank lines) and transpiled by the rebuilt fc with the root-boundary invariants (hook H2) asserted; the gen file must be byte-identical to the one of the canonical layout; the converse (a dedented line ends its block) is decided by executing paired programs that differ only in the indentation of one statement; non-trivial = the layout differs from the canonical text; distinct by (program, layout text) hash")
+	r.Assume("layouts never put a comment before a token on its line (that changes columns)", "the canonical layout's meaning is checked by C01")
 	cases, discarded, _ := genCases(r.SeedV, "c06", fo.ProfileC01, nProg, 0)
 	_ = discarded
 	type job struct {
